@@ -1,5 +1,5 @@
 (* Dispatcher used by the correspondence drivers: function number -> wire -> wire. *)
-From DD Require Import Base.Wire Model.Lexer Model.Writer Spec.StdReader Run.NodeWire Run.CheckWire Run.OptWire Run.TypeWire Run.RwWire Run.SchedWire Run.CoreWire Run.DdTopWire.
+From DD Require Import Base.Wire Model.Lexer Model.Writer Spec.StdReader Run.NodeWire Run.CheckWire Run.OptWire Run.TypeWire Run.RwWire Run.SchedWire Run.CoreWire Run.DdTopWire Run.MoreWire1 Run.MoreWire2.
 
 Definition r_lexeme (w : wire) : lexeme :=
   match w with WN 0%Z => LPar | WN _ => RPar | WL _ => Tok (r_str w) end.
@@ -26,6 +26,8 @@ Definition dispatch (f : Z) (w : wire) : wire :=
          else if (Z.eqb f 80)%Z then dispatch_sched f w
          else if (Z.eqb f 81)%Z then dispatch_ddmin f w
          else if (Z.eqb f 82)%Z then dispatch_ddtop f w
+         else if (Z.leb 100 f && Z.ltb f 110)%Z then dispatch_more1 f w
+         else if (Z.leb 110 f && Z.ltb f 120)%Z then dispatch_more2 f w
          else if (Z.leb 59 f && Z.ltb f 80)%Z then dispatch_rw f w
          else if (Z.leb 51 f && Z.ltb f 59)%Z then dispatch_smtlib f w
          else if (Z.eqb f 45)%Z then dispatch_cli f w
